@@ -22,7 +22,12 @@ EXPLANATION = (
     "peak_size, contract_stats size) depends on it, and multiplicity is written only "
     "by __init__, set_state_from, remove_ind (slicing branch only) and restore_ind. "
     "The arithmetic and the 'shapes actually produced' clause are runtime facts and "
-    "are not decided."
+    "are not decided. "
+    "Later rounds added: "
+    "(ARITH, shared with C04-ARITH) slicing rescales the per-step and total figures by "
+    "the definitional factors (symbolic evaluation of remove_ind); (INTCOST) stored "
+    "figures use integer arithmetic; (TOTALSTATE) totals and their flags are transferred "
+    "unconditionally. "
 )
 ASSUMPTIONS = ("compute_size_by_dict(indices, size_dict) is the product of the sizes of `indices`",)
 
